@@ -339,7 +339,7 @@ pub fn run(args: &Args, c09: bool) -> Report {
         let b = String::from_utf8_lossy(&unhex(it.next().unwrap_or("-"))).into_owned();
         pairs.push((a, b, "replay"));
     } else {
-        let n = if args.thorough { 3000 } else { 600 };
+        let n = if args.thorough { 15000 } else { 600 };
         let empty = "ASAP2_VERSION 1 71 /begin PROJECT p \"\" /begin MODULE m \"\" /end MODULE /end PROJECT".to_string();
         for i in 0..n {
             let (a, b) = make_pair(&g, &mut rng, [0, 30, 60][i % 3], 1 + i % 2);
